@@ -68,6 +68,11 @@ func (cw *codeWorld) startAuth(ch *kernel.Chooser, client string) string {
 		p.method = "S256"
 	case pk == 8 || (!c.Public() && pk == 4):
 		p.method = "plain"
+		if ch.Bool(1, 2) {
+			// the method is left out: RFC 7636 4.3 - "defaults to plain if not present in the request"
+			p.method = "plain-unnamed"
+			cw.o.Probe("challenge-without-a-method")
+		}
 	}
 	if c.AppType == op.ApplicationTypeNative && strings.HasPrefix(p.redirect, "http://localhost/") && ch.Bool(1, 2) {
 		// a native app listens on whatever loopback port it got (RFC 8252 section 7.3): the authorization endpoint
@@ -84,13 +89,19 @@ func (cw *codeWorld) startAuth(ch *kernel.Chooser, client string) string {
 		} else {
 			ap.Challenge = p.verifier
 		}
+		if p.method == "plain-unnamed" {
+			ap.ChallengeMethod = ""
+		}
 	}
 	if key, ok := w.ClientKeys[client]; ok && w.Conf.RequestObjectSupported && ch.Bool(1, 2) {
 		// state, nonce and the PKCE parameters travel only inside a request object signed with the client's key
 		p.viaObject = true
 		ro := map[string]any{"iss": client, "aud": []string{w.Issuer}, "client_id": client, "response_type": "code", "state": p.state, "nonce": p.nonce}
 		if ap.Challenge != "" {
-			ro["code_challenge"], ro["code_challenge_method"] = ap.Challenge, ap.ChallengeMethod
+			ro["code_challenge"] = ap.Challenge
+			if ap.ChallengeMethod != "" {
+				ro["code_challenge_method"] = ap.ChallengeMethod
+			}
 		}
 		payload, _ := json.Marshal(ro)
 		ap.State, ap.Nonce, ap.Challenge, ap.ChallengeMethod = "", "", "", ""
